@@ -467,7 +467,19 @@ def harden_ops(ctx, inst, form, ddp, inp, rng, thorough):
         d2 = DiscreteDP(*args)
         got = ops_signature(d2, vint, sgi, lt1)
         g_, r_ = list(got), list(ref)
-        if "float32" in label and label.startswith("Q") and lt1:
+        if not inst.dyadic:
+            # inexact arithmetic: another layout / dtype / storage format may sum in another order and break an EXACT tie
+            # differently, so policies are compared tie-aware (any maximiser of the exact values), values with a tolerance
+            vfr_ = [Fraction(x) for x in vint]
+            e1_, _ = o_bellman(inst, vfr_)
+            ok_t = sigma_is_near_greedy(inst, vfr_, [int(x) for x in g_[1]])
+            ok_t = ok_t and g_[7].shape == r_[7].shape and sigma_is_near_greedy(inst, vfr_, [int(x) for x in g_[7][1]]) \
+                and sigma_is_near_greedy(inst, e1_, [int(x) for x in g_[7][0]])
+            if ok_t:
+                g_[1] = r_[1]; g_[7] = r_[7]
+            else:
+                g_[0] = None
+        if g_[0] is not None and "float32" in label and label.startswith("Q") and lt1:
             # float32 transition data: beta*Q_sigma and the linear solve are carried out in float32 (documented NumPy promotion),
             # so evaluate_policy is only float32-accurate; every other operator is exact on this data
             if not np.allclose(g_[-1], r_[-1], rtol=1e-4, atol=1e-4):
